@@ -83,7 +83,8 @@ def run(tier: str, seed: int, t0: float) -> int:
     stats.add_tlc(r, "M MC_Pairs MergeLaw")
     jobs = []
     # ---- G+T small scope
-    sch, js, docs = universe.tlc_docs("s1t", universe.bounds(4 if not thorough else 5), stats)
+    LV = {"t": "link", "a": "{\"href\":\"v\"}"}
+    sch, js, docs = universe.tlc_docs("s1t", universe.bounds(4 if not thorough else 5, marksets=((), (universe.EM,), (universe.LINK,), (LV,))), stats)
     real = [proj.unproj(sch, d) for d in docs]
     # shaped documents beyond the token bound: three and four text runs with alternating marks in one textblock (a
     # merged mark step can make them all alike at once)
